@@ -20,6 +20,10 @@ def bspline_to_nurbs(obj, **kwargs):
     :rtype: NURBS.Curve, NURBS.Surface or NURBS.Volume
     :raises: TypeError
     """
+    # The rational shapes are also instances of the non-rational classes; converting them would replace their weights by 1
+    if getattr(obj, 'rational', False):
+        raise TypeError("Input must be a non-rational curve, surface or volume")
+
     # B-Spline -> NURBS
     if isinstance(obj, BSpline.Curve):
         ret = cvt.convert_curve(obj, NURBS)
